@@ -91,6 +91,11 @@ func genC19(r *vh.Runner) {
 			c.Bubble(func() { cookieBinding(r, c, a) })
 		})
 	}
+	// (d) post-dated hidden requests
+	pd := r.Pick(6, 100)
+	for h := 0; h < pd; h++ {
+		r.Case(fmt.Sprintf("hidden-post-dated/%d", h), map[string]any{"rep": h}, func(c *vh.Case) { hiddenPostDated(r, c, h) })
+	}
 	// (c) hidden server silence
 	hid := r.Pick(6, 100)
 	for h := 0; h < hid; h++ {
@@ -98,6 +103,58 @@ func genC19(r *vh.Runner) {
 			c.Bubble(func() { hiddenSilence(r, c, h) })
 		})
 	}
+}
+
+// hiddenPostDated: a hidden request whose (sealed, authenticated) timestamp
+// lies in the server's future is not fresh. The request is made by a real
+// client in a first bubble whose clock has run ahead; a twin of the server
+// (same keys and certificates) receives it in a second bubble whose clock has
+// not. A request made in the second bubble is the control.
+func hiddenPostDated(r *vh.Runner, c *vh.Case, rep int) {
+	rng := vh.NewRand(r.Seed, "c19-postdated", rep)
+	ahead := time.Duration(rng.Pick(60, 61, 300, 3600, 86400, 400*86400)) * time.Second
+	var pki *fix.PKI
+	var sid, cid *fix.Identity
+	var req []byte
+	c.Bubble(func() {
+		w, id := newLoggedWorld(func(sc *transport.ServerConfig) { sc.IsHidden = true })
+		time.Sleep(ahead)
+		held, _, vcl := captureFlow(w, id, true, nil, func(mt byte) bool { return mt == 0x08 })
+		vcl.Close()
+		w.Server.Close()
+		pki, sid, cid, req = w.PKI, w.ServerID, id, held[0x08]
+	})
+	if req == nil {
+		c.Inconclusive("could not capture a hidden request")
+		return
+	}
+	c.Bubble(func() {
+		cv := &transport.VerifyConfig{Store: pki.Store()}
+		w := fix.NewWorldWith(pki, sid, true, cv, func(sc *transport.ServerConfig) { sc.IsHidden = true })
+		defer w.Server.Close()
+		mark := w.Net.LogLen()
+		w.Net.Inject(simnet.Delivery{Data: req, Src: simnet.Addr(7100+rep, 5100), Dst: w.SrvAddr, Tag: "stim:post-dated-request"})
+		bub.Settle(20 * time.Millisecond)
+		n := len(serverTx(w, mark))
+		r.Count("evaluations", 1)
+		r.Count("hidden_stimuli", 1)
+		r.Count("post_dated_requests", 1)
+		// control: the same client identity, a request made now
+		ctl, addrC, ccl := captureFlow(w, cid, true, nil, func(mt byte) bool { return mt == 0x08 })
+		ccl.Close()
+		mark = w.Net.LogLen()
+		w.Net.Inject(simnet.Delivery{Data: ctl[0x08], Src: addrC, Dst: w.SrvAddr, Tag: "stim:control"})
+		bub.Settle(20 * time.Millisecond)
+		if k := len(serverTx(w, mark)); k != 1 {
+			c.Inconclusive(fmt.Sprintf("control: fresh valid hidden request to the twin got %d datagrams", k))
+			return
+		}
+		r.Count("control_requests_answered", 1)
+		r.Nontrivial(fmt.Sprintf("hid|postdated|%d", rep))
+		if n > 0 {
+			c.Violate("C19:hidden-server-answers:post-dated-request", map[string]any{"timestamp_ahead_of_server_s": ahead.Seconds(), "datagrams_emitted": n})
+		}
+	})
 }
 
 func newLoggedWorld(tweak func(*transport.ServerConfig)) (*fix.World, *fix.Identity) {
